@@ -24,12 +24,18 @@ pub enum Plan {
     Partial(Vec<bool>),
     /// perform the write, then never return (the node is killed in the middle of the request)
     Park,
+    /// (single `put` only) perform the write, then wait until `release()` is called: the actor
+    /// stays inside this request while other messages queue up behind it
+    Hold,
 }
 
 pub struct Faulty {
     pub inner: MemStore,
     plan: Mutex<Plan>,
     pub calls: Mutex<u64>,
+    gate: tokio::sync::Semaphore,
+    /// while set, every storage mutation fails without writing (the disk is full)
+    fail_all: std::sync::atomic::AtomicBool,
 }
 
 impl Default for Faulty {
@@ -38,6 +44,8 @@ impl Default for Faulty {
             inner: MemStore::default(),
             plan: Mutex::new(Plan::Ok),
             calls: Mutex::new(0),
+            gate: tokio::sync::Semaphore::new(0),
+            fail_all: std::sync::atomic::AtomicBool::new(false),
         }
     }
 }
@@ -46,8 +54,19 @@ impl Faulty {
     pub fn set_plan(&self, p: Plan) {
         *self.plan.lock() = p;
     }
+    /// Lets one held `put` return.
+    pub fn release(&self) {
+        self.gate.add_permits(1);
+    }
+    /// While `on`, every storage mutation fails without writing anything.
+    pub fn set_fail_all(&self, on: bool) {
+        self.fail_all.store(on, std::sync::atomic::Ordering::SeqCst);
+    }
     fn take_plan(&self) -> Plan {
         *self.calls.lock() += 1;
+        if self.fail_all.load(std::sync::atomic::Ordering::SeqCst) {
+            return Plan::Fail;
+        }
         std::mem::replace(&mut *self.plan.lock(), Plan::Ok)
     }
 }
@@ -80,7 +99,7 @@ impl Storage for Faulty {
         let mut keys: Vec<Key> = keys.collect();
         keys.sort();
         match self.take_plan() {
-            Plan::Ok => self.inner.remove_tombstones(keyspace, keys.into_iter()).await,
+            Plan::Ok | Plan::Hold => self.inner.remove_tombstones(keyspace, keys.into_iter()).await,
             Plan::Fail => Err(BulkMutationError::empty_with_error(injected())),
             Plan::Partial(mask) => {
                 let done: Vec<Key> = keys
@@ -108,6 +127,13 @@ impl Storage for Faulty {
                 std::future::pending::<()>().await;
                 unreachable!()
             },
+            Plan::Hold => {
+                self.inner.put(keyspace, document).await?;
+                if let Ok(p) = self.gate.acquire().await {
+                    p.forget();
+                }
+                Ok(())
+            },
             _ => Err(injected()),
         }
     }
@@ -119,7 +145,7 @@ impl Storage for Faulty {
     ) -> Result<(), BulkMutationError<Self::Error>> {
         let docs: Vec<Document> = documents.collect();
         match self.take_plan() {
-            Plan::Ok => self.inner.multi_put(keyspace, docs.into_iter()).await,
+            Plan::Ok | Plan::Hold => self.inner.multi_put(keyspace, docs.into_iter()).await,
             Plan::Fail => Err(BulkMutationError::empty_with_error(injected())),
             Plan::Partial(mask) => {
                 let mut done = Vec::new();
@@ -146,7 +172,7 @@ impl Storage for Faulty {
         timestamp: HLCTimestamp,
     ) -> Result<(), Self::Error> {
         match self.take_plan() {
-            Plan::Ok => self.inner.mark_as_tombstone(keyspace, doc_id, timestamp).await,
+            Plan::Ok | Plan::Hold => self.inner.mark_as_tombstone(keyspace, doc_id, timestamp).await,
             Plan::Park => {
                 self.inner.mark_as_tombstone(keyspace, doc_id, timestamp).await?;
                 std::future::pending::<()>().await;
@@ -163,7 +189,7 @@ impl Storage for Faulty {
     ) -> Result<(), BulkMutationError<Self::Error>> {
         let docs: Vec<DocumentMetadata> = documents.collect();
         match self.take_plan() {
-            Plan::Ok => self.inner.mark_many_as_tombstone(keyspace, docs.into_iter()).await,
+            Plan::Ok | Plan::Hold => self.inner.mark_many_as_tombstone(keyspace, docs.into_iter()).await,
             Plan::Fail => Err(BulkMutationError::empty_with_error(injected())),
             Plan::Partial(mask) => {
                 let mut done = Vec::new();
